@@ -291,6 +291,29 @@ func genC07(g *Rng, tier string, emit func(Op)) {
 			emit(col.relOp("sequential"))
 		}
 	}
+	// a hidden attribute whose value is 0 (an absent optional attribute) is blinded like any other:
+	// its response is its randomiser, which is long, and never the same twice
+	{
+		cred := issueCred(kp, randSecret(g), []*big.Int{g.bits(60), bi(0), g.bits(60), bi(0)})
+		seen := map[string]bool{}
+		res := "fresh"
+		for i := 0; i < 4 && res == "fresh"; i++ {
+			p, err := cred.CreateDisclosureProof([]int{1}, nil, false, g.bits(256), g.bits(80))
+			if err != nil {
+				panic(err)
+			}
+			for _, j := range []int{2, 4} {
+				r := p.AResponses[j]
+				if r == nil || r.BitLen() < int(kp.pk.Params.LmCommit)-40 {
+					res = fmt.Sprintf("short response for the zero attribute %d (%d bits)", j, r.BitLen())
+				} else if seen[r.String()] {
+					res = "repeated response for a zero attribute"
+				}
+				seen[r.String()] = true
+			}
+		}
+		emit(Op{"op": "recorded", "class": "zero-attribute-randomiser", "label": "fresh", "nomodel": true, "fkey": "C07/zero-attribute-randomiser", "result": res})
+	}
 	// a prepared commitment is consumed by at most one proof also while the cache is being prepared
 	// again after the credential moved on (executor shared with C20: child process, race detector on)
 	for _, n := range []int{3, 8} {
